@@ -150,25 +150,25 @@ pub mod restrictions {
         fn check_restrictions(&self, restrictions: Option<Rc<Restrictions>>) -> SoapResult<()> {
             if let Some(restrictions) = restrictions {
                 if let Some(min_inclusive) = restrictions.min_inclusive {
-                    if *self <= min_inclusive {
+                    if *self < min_inclusive {
                         return Err(SoapError::Restriction("minInclusive restriction not met".to_string()));
                     }
                 }
 
                 if let Some(max_inclusive) = restrictions.max_inclusive {
-                    if max_inclusive <= *self {
+                    if max_inclusive < *self {
                         return Err(SoapError::Restriction("maxInclusive restriction not met".to_string()));
                     }
                 }
 
                 if let Some(min_exclusive) = restrictions.min_exclusive {
-                    if *self < min_exclusive {
+                    if *self <= min_exclusive {
                         return Err(SoapError::Restriction("minExclusive restriction not met".to_string()));
                     }
                 }
 
                 if let Some(max_exclusive) = restrictions.max_exclusive {
-                    if max_exclusive < *self {
+                    if max_exclusive <= *self {
                         return Err(SoapError::Restriction("maxExclusive restriction not met".to_string()));
                     }
                 }
@@ -259,25 +259,25 @@ pub mod restrictions {
             let value = self.parse::<i32>()?;
 
             if let Some(min_inclusive) = restrictions.min_inclusive {
-                if value <= min_inclusive {
+                if value < min_inclusive {
                     return Err(SoapError::Restriction("minInclusive restriction not met".to_string()));
                 }
             }
 
             if let Some(max_inclusive) = restrictions.max_inclusive {
-                if max_inclusive <= value {
+                if max_inclusive < value {
                     return Err(SoapError::Restriction("maxInclusive restriction not met".to_string()));
                 }
             }
 
             if let Some(min_exclusive) = restrictions.min_exclusive {
-                if value < min_exclusive {
+                if value <= min_exclusive {
                     return Err(SoapError::Restriction("minExclusive restriction not met".to_string()));
                 }
             }
 
             if let Some(max_exclusive) = restrictions.max_exclusive {
-                if max_exclusive < value {
+                if max_exclusive <= value {
                     return Err(SoapError::Restriction("maxExclusive restriction not met".to_string()));
                 }
             }
